@@ -436,6 +436,12 @@ def run(ctx):
     nb = 160000 if thorough else 40000
     tf, res = harness(binp, "bulk", "bulk", ["-n", str(nb), "-enders", "4"])
     traces.append((tf, "bulk"))
+    # ------------------------------------------------------------ user code called by the SDK PANICS (SpanPanic.tla, checks/c10_panics.py)
+    import importlib.util
+    _sp = importlib.util.spec_from_file_location("c10_panics", os.path.join(os.path.dirname(os.path.abspath(__file__)), "c10_panics.py"))
+    c10_panics = importlib.util.module_from_spec(_sp)
+    _sp.loader.exec_module(c10_panics)
+    traces += c10_panics.stage(ctx, binp, harness)
     race_reports = []
     if thorough:
         rbin = ctx.go_build("c10", race=True)
@@ -465,7 +471,8 @@ def run(ctx):
     kinds = {}
     for tf, label in traces:
         name = "trace-" + os.path.basename(tf)[len("trace-"):-len(".ndjson")]
-        viols, accepted = ctx.validate_trace(S, "Trace_SpanEnd", "Trace_SpanEnd.cfg", tf, name=name, timeout=3000)
+        tmod = "Trace_SpanPanic" if "panics" in label else "Trace_SpanEnd"     # panics: SpanEndContract + UPanic / Unwind
+        viols, accepted = ctx.validate_trace(S, tmod, tmod + ".cfg", tf, name=name, timeout=3000)
         ctx.extra["trace_lines_" + name[len("trace-"):]] = accepted
         lines = None
         for v in viols:
@@ -488,6 +495,8 @@ def run(ctx):
                    "win": (w["win"] if w["hooks"] else "no-hooks"), "source": label.replace("race-", "")}
             if kind == "deadlock":   # chains of API / callback frames of the parked goroutines, outermost first
                 sig["where"] = w["detail"]
+            if w.get("after"):       # gates at which user code had panicked before (class: a lock stayed held when the panic unwound)
+                sig["after_user_panic_at"] = ",".join(sorted(w["after"]))
             ctx.violation(sig, replay={"violation": v, "scenario_name": cfg.get("name", ""), "events": scen[-400:]})
     ctx.extra["violation_kinds_seen"] = kinds
     # spec -> code binding: a behaviour that was followed step by step must end as TLC predicted
